@@ -5,7 +5,7 @@
     the device was closed exactly once and that Close succeeded.  [fixed] = the repaired code. *)
 From Coq Require Import List Arith NArith Bool Permutation.
 From OBI.Common Require Import Reseq.
-From OBI.C18 Require Import Model Proofs Layer LayerProofs.
+From OBI.C18 Require Import Model Proofs Layer LayerProofs Own OwnProofs.
 Import ListNotations.
 
 Theorem C18_fault_is_fatal_fastx : forall bsz l arr d0, Permutation arr (numbered l) -> fresh d0 ->
@@ -199,6 +199,128 @@ Proof.
   apply perm_skip. apply Permutation_refl.
 Qed.
 
+(** ================= round 3 *)
+
+(** STREAMS THE WRITER DOES NOT OWN (OptionDontCloseFile: JSON / CSV on the standard output; [own = false]):
+    Wfile.Close is still the final flush, its error is still fatal, and the stream is left open.  For every
+    writer, owner flag, device shape, buffer size, loop fuel and arrival: exit ok => every expected byte is in
+    the device; owned: closed once and that Close succeeded; not owned: never closed. *)
+Theorem C18_fault_is_fatal_fastx_any_owner : forall own bsz fuel k1 k2 l arr d0, Permutation arr (numbered l) -> sfresh d0 ->
+  go sdev (g_fastx sdev sdev_write (own_close own) bsz fuel k1 k2 arr d0) = ExitOk ->
+  odelivered own (g_fastx sdev sdev_write (own_close own) bsz fuel k1 k2 arr d0) (concat l).
+Proof. exact own_fastx. Qed.
+Theorem C18_fault_is_fatal_json_any_owner : forall own bsz fuel k l arr d0, Permutation arr (numbered l) -> sfresh d0 ->
+  go sdev (g_json sdev sdev_write (own_close own) bsz fuel k arr d0) = ExitOk ->
+  odelivered own (g_json sdev sdev_write (own_close own) bsz fuel k arr d0) (json_expected l).
+Proof. exact own_json. Qed.
+Theorem C18_fault_is_fatal_csv_any_owner : forall own bsz fuel k header rows arr d0,
+  Permutation arr (numbered (csv_chunks header rows)) -> sfresh d0 ->
+  go sdev (g_csv sdev sdev_write (own_close own) bsz fuel k arr d0) = ExitOk ->
+  odelivered own (g_csv sdev sdev_write (own_close own) bsz fuel k arr d0) (concat (csv_chunks header rows)).
+Proof. exact own_csv. Qed.
+(** explicit: JSON on a standard output that accepts k bytes, the array being longer: no successful exit *)
+Theorem C18_unowned_fault_offset_json : forall bsz fuel kk l arr d0 k, Permutation arr (numbered l) -> sfresh d0 ->
+  budget (sd d0) = Some k -> k < length (json_expected l) ->
+  go sdev (g_json sdev sdev_write (own_close false) bsz fuel kk arr d0) <> ExitOk.
+Proof. exact unowned_fault_offset_json. Qed.
+
+(** compressed AND not owned (-Z on the standard output): Close = close of the compressor only; under the same
+    single law: exit ok => the compressor got every expected byte and closed without error, no device write
+    failed, the device is still open *)
+Theorem C18_fault_is_fatal_fastx_gz_unowned : forall G gwrite gclose owes, gz_law G gwrite gclose owes ->
+  forall bsz fuel k1 k2 l arr z0, Permutation arr (numbered l) -> zfresh G z0 ->
+  go _ (g_fastx (zdev G) (z_write G gwrite) (z_close_keep G gclose) bsz fuel k1 k2 arr z0) = ExitOk ->
+  zdelivered_keep G (g_fastx (zdev G) (z_write G gwrite) (z_close_keep G gclose) bsz fuel k1 k2 arr z0) (concat l).
+Proof. exact (fun G gw gc ow L => gz_keep_fastx G gw gc ow (proj1 L) (proj2 L)). Qed.
+Theorem C18_fault_is_fatal_json_gz_unowned : forall G gwrite gclose owes, gz_law G gwrite gclose owes ->
+  forall bsz fuel k l arr z0, Permutation arr (numbered l) -> zfresh G z0 ->
+  go _ (g_json (zdev G) (z_write G gwrite) (z_close_keep G gclose) bsz fuel k arr z0) = ExitOk ->
+  zdelivered_keep G (g_json (zdev G) (z_write G gwrite) (z_close_keep G gclose) bsz fuel k arr z0) (json_expected l).
+Proof. exact (fun G gw gc ow L => gz_keep_json G gw gc ow (proj1 L) (proj2 L)). Qed.
+Theorem C18_fault_is_fatal_csv_gz_unowned : forall G gwrite gclose owes, gz_law G gwrite gclose owes ->
+  forall bsz fuel k header rows arr z0, Permutation arr (numbered (csv_chunks header rows)) -> zfresh G z0 ->
+  go _ (g_csv (zdev G) (z_write G gwrite) (z_close_keep G gclose) bsz fuel k arr z0) = ExitOk ->
+  zdelivered_keep G (g_csv (zdev G) (z_write G gwrite) (z_close_keep G gclose) bsz fuel k arr z0) (concat (csv_chunks header rows)).
+Proof. exact (fun G gw gc ow L => gz_keep_csv G gw gc ow (proj1 L) (proj2 L)). Qed.
+
+(** A HISTORY OF CALLS ON ONE Wfile (Write / WriteString any number of times, then Close; OpenWritingFile,
+    CompressStream, a WriteSeqFileChunk whose caller closes): if Close returns no error (and every call returned)
+    then EVERY call returned Ok, every byte is in the device, which was closed once successfully (owned) or left
+    open (not owned) *)
+Theorem C18_wfile_session : forall own bsz fuel d0 ps d' xs, sfresh d0 ->
+  wf_session sdev sdev_write (own_close own) bsz fuel d0 ps = (d', xs, false) -> ~ In Fuel xs ->
+  Forall (fun x => x = Ok) xs /\ got (sd d') = concat ps /\
+  (if own then closes (sd d') = 1 /\ close_ok (sd d') = true else closes (sd d') = 0).
+Proof. exact wfile_session_delivered. Qed.
+(** ... and once a call has returned an error, every later call returns an error and so does Close: after the
+    first failure nothing the caller does (or forgets to check) can turn the run into a success *)
+Theorem C18_wfile_error_sticky : forall own bsz fuel d0 ps d' xs e xs1 xs2,
+  wf_session sdev sdev_write (own_close own) bsz fuel d0 ps = (d', xs, e) -> xs = xs1 ++ Err :: xs2 ->
+  Forall (fun x => x = Err) xs2 /\ e = true.
+Proof. exact wfile_error_sticky. Qed.
+(** the same over ANY lower layer obeying the write law of LayerProofs (compressor included) *)
+Theorem C18_wfile_session_any_layer : forall (D : Type) (lwrite : D -> list N -> D * nat * bool) (lclose : D -> D * bool) bsz fuel
+    (lgot : D -> list N) (lclosed : D -> nat),
+  (forall d p d' n e, lwrite d p = (d', n, e) -> lclosed d' = lclosed d /\ (e = false -> lgot d' = lgot d ++ firstn n p /\ (True -> True))) ->
+  forall d0, lgot d0 = [] -> forall ps d' xs, wf_session D lwrite lclose bsz fuel d0 ps = (d', xs, false) -> ~ In Fuel xs ->
+  Forall (fun x => x = Ok) xs /\ exists d1, lgot d1 = concat ps /\ lclosed d1 = lclosed d0 /\ lclose d1 = (d', false).
+Proof. exact wf_session_ok. Qed.
+
+(** THE END OF THE WRITER GOROUTINE: the error of Close is reported (log.Fatalf) BEFORE completion is signalled.
+    After the signal main may return with status 0 at any moment ([may_exit_ok]); with the order of the code a
+    possible successful exit implies a complete output ... *)
+Theorem C18_signal_after_check : forall own bsz fuel k1 k2 l arr d0, Permutation arr (numbered l) -> sfresh d0 ->
+  let r := fastx_events sdev sdev_write (own_close own) bsz fuel CheckThenSignal k1 k2 arr d0 in
+  may_exit_ok (fst r) = true ->
+  got (sd (snd r)) = concat l /\ (if own then closes (sd (snd r)) = 1 /\ close_ok (sd (snd r)) = true else closes (sd (snd r)) = 0).
+Proof. exact signal_after_check. Qed.
+(** ... with the opposite order (completion signalled, then the error looked at) it does not: one record on a full
+    device; the goroutine does reach log.Fatalf, too late *)
+Theorem C18_signal_before_check_refuted :
+  exists l d0, sfresh d0 /\
+    let r := fastx_events sdev sdev_write (own_close true) go_bufsize 16 SignalThenCheck true true (numbered l) d0 in
+    may_exit_ok (fst r) = true /\ got (sd (snd r)) <> concat l /\ In EvFatal (fst r).
+Proof. exact signal_before_check_refuted. Qed.
+
+(** the same for the JSON and CSV writers (their completion signal is waitWriter.Done / UnregisterPipe) *)
+Theorem C18_signal_after_check_json : forall own bsz fuel k l arr d0, Permutation arr (numbered l) -> sfresh d0 ->
+  let r := end_events sdev sdev_write (own_close own) CheckThenSignal (json_before_close bsz fuel k arr d0) in
+  may_exit_ok (fst r) = true ->
+  got (sd (snd r)) = json_expected l /\ (if own then closes (sd (snd r)) = 1 /\ close_ok (sd (snd r)) = true else closes (sd (snd r)) = 0).
+Proof. exact json_signal_after_check. Qed.
+Theorem C18_signal_after_check_csv : forall own bsz fuel k header rows arr d0,
+  Permutation arr (numbered (csv_chunks header rows)) -> sfresh d0 ->
+  let r := end_events sdev sdev_write (own_close own) CheckThenSignal (csv_before_close bsz fuel k arr d0) in
+  may_exit_ok (fst r) = true ->
+  got (sd (snd r)) = concat (csv_chunks header rows) /\ (if own then closes (sd (snd r)) = 1 /\ close_ok (sd (snd r)) = true else closes (sd (snd r)) = 0).
+Proof. exact csv_signal_after_check. Qed.
+(** JSON on a standard output with room for 2 of the 5 bytes of the empty array, completion signalled first *)
+Theorem C18_signal_before_check_json_refuted :
+  exists d0, sfresh d0 /\
+    let r := end_events sdev sdev_write (own_close false) SignalThenCheck (json_before_close go_bufsize 16 true [] d0) in
+    may_exit_ok (fst r) = true /\ got (sd (snd r)) <> json_expected [] /\ In EvFatal (fst r).
+Proof. exact json_signal_before_check_refuted. Qed.
+
+(** hypotheses are met and conclusions not vacuous (4096-byte buffer): JSON on a healthy standard output exits ok,
+    complete and NOT closed; on one that accepts 5 bytes, fatally; a history Write 2 / Write 3 / Write 1 on a device
+    accepting 0 bytes: the calls return Ok (buffered) and Close the error; with a 4-byte buffer the second call
+    already fails and the third and Close fail too; the lazy compressor, not owned: fatal on a failing device, ok and
+    open on a healthy one *)
+Example C18_round3_nonvacuous :
+  let l := [[123; 125]%N; []; [123; 49; 125]%N] in
+  let dv k := mksdev (mkdev k true [] 0) None false 0 in
+  let jrun k := g_json sdev sdev_write (own_close false) go_bufsize 16 true (numbered l) (dv k) in
+  go _ (jrun None) = ExitOk /\ got (sd (gd _ (jrun None))) = json_expected l /\ closes (sd (gd _ (jrun None))) = 0 /\
+  go _ (jrun (Some 5)) = ExitFatal /\
+  snd (wf_session sdev sdev_write (own_close true) go_bufsize 16 (dv (Some 0)) [[1; 2]; [3; 4; 5]; [6]]%N) = true /\
+  snd (fst (wf_session sdev sdev_write (own_close true) go_bufsize 16 (dv (Some 0)) [[1; 2]; [3; 4; 5]; [6]]%N)) = [Ok; Ok; Ok] /\
+  snd (fst (wf_session sdev sdev_write (own_close true) 4 16 (dv (Some 0)) [[1; 2]; [3; 4; 5]; [6]]%N)) = [Ok; Err; Err] /\
+  wf_session sdev sdev_write (own_close false) 4 16 (dv None) [[1; 2]; [3; 4; 5]; [6]]%N = (mksdev (mkdev None true [1; 2; 3; 4; 5; 6]%N 0) None false 0, [Ok; Ok; Ok], false) /\
+  let zrun k := g_json (zdev bool) (z_write bool lazy_gwrite) (z_close_keep bool lazy_gclose) go_bufsize 4 true
+                  (numbered l) (false, mkfdev (mkdev k true [] 0) false, []) in
+  go _ (zrun (Some 3)) = ExitFatal /\ go _ (zrun None) = ExitOk /\ closes (fd (snd (fst (gd _ (zrun None))))) = 0.
+Proof. vm_compute. repeat split; reflexivity. Qed.
+
 Print Assumptions C18_fault_is_fatal_fastx.
 Print Assumptions C18_fault_is_fatal_json.
 Print Assumptions C18_fault_is_fatal_csv.
@@ -226,3 +348,18 @@ Print Assumptions C18_gz_law_satisfiable.
 Print Assumptions C18_fault_is_fatal_fastx_shapes.
 Print Assumptions C18_fault_is_fatal_json_shapes.
 Print Assumptions C18_fault_is_fatal_csv_shapes.
+Print Assumptions C18_fault_is_fatal_fastx_any_owner.
+Print Assumptions C18_fault_is_fatal_json_any_owner.
+Print Assumptions C18_fault_is_fatal_csv_any_owner.
+Print Assumptions C18_unowned_fault_offset_json.
+Print Assumptions C18_fault_is_fatal_fastx_gz_unowned.
+Print Assumptions C18_fault_is_fatal_json_gz_unowned.
+Print Assumptions C18_fault_is_fatal_csv_gz_unowned.
+Print Assumptions C18_wfile_session.
+Print Assumptions C18_wfile_error_sticky.
+Print Assumptions C18_wfile_session_any_layer.
+Print Assumptions C18_signal_after_check.
+Print Assumptions C18_signal_before_check_refuted.
+Print Assumptions C18_signal_after_check_json.
+Print Assumptions C18_signal_after_check_csv.
+Print Assumptions C18_signal_before_check_json_refuted.
